@@ -250,7 +250,7 @@ def main(argv):
             fnk = l.split(': ', 1)[0]
             if fnk in g.stubbed:
                 if any(v['fn'] == fnk for v in mine.values()):
-                    undecided.append('lost anchor: ' + l)
+                    undecided.append('isolated function (its obligations are undecided): ' + l)
                 else:
                     notes.append('isolated (not part of this property): ' + l)
             else:
@@ -330,8 +330,10 @@ def main(argv):
             real.append((uname, ob, diags, g))
 
     # tainted obligations: undecided unless the witness finder shows the property really fails on the real code
-    soft = [x for x in undecided if x.startswith('resource limit')]
-    hard_und = [x for x in undecided if not x.startswith('resource limit')]
+    # notes that make only ONE function's obligations undecided (a resource limit there, or the function was isolated as a stub)
+    # do not suppress a semantic failure of another, fully verified function
+    soft = [x for x in undecided if x.startswith(('resource limit', 'isolated function'))]
+    hard_und = [x for x in undecided if not x.startswith(('resource limit', 'isolated function'))]
     kani_fail = [b for b in bounded if b['status'] == 'failed']
     if tainted and not real and not undecided and not kani_fail:
         w = None
